@@ -26,6 +26,13 @@ theorem C14_mirror (comet : List (String × Nat)) (ups : List (String × Nat)) (
 theorem C14_mirror_pre_aspen (s : State) (h : s.postAspen = false) :
     (authorityEndBlock s).vals = applyValUpdates s.vals s.valUpdates := mirror_pre_aspen s h
 
+/-- The Aspen upgrade (migration of the validator storage) keeps the validator set and makes the
+    stored count equal to its size. -/
+theorem C14_aspen_migration_preserves (s : State) (pairs markets : List (String × Nat)) :
+    (aspenUpgrade s pairs markets).vals = s.vals ∧
+    (aspenUpgrade s pairs markets).valCount = s.vals.length ∧
+    (aspenUpgrade s pairs markets).valUpdates = s.valUpdates := ⟨rfl, rfl, rfl⟩
+
 /-- Whenever CometBFT accepts a batch, its new set is the batch applied as a map (so with
     `C14_mirror` it equals the stored set). -/
 theorem C14_accepted_batch_mirrors (ups set r : List (String × Nat))
